@@ -773,10 +773,9 @@ def exec_nometa(case):
             for name, call in (("read_sync_digital", lambda: sr.read_sync_digital(*a)),
                                ("read_sync", lambda: sr.read_sync(*a)), ("read(...)[1]", lambda: sr.read(*a)[1])):
                 val, exc = _try(call)
-                is_int = isinstance(sel, (int, np.integer))
                 if exc is not None:
                     r.bad.append(("meta-less reader (nc=385, nsync=%s): %s(%s) raised %r" % (sr.nsync, name, label, exc),
-                                  dict(tags, defect="int_selector_no_meta" if is_int else "no_meta")))
+                                  dict(tags, defect="no_meta")))
                 elif (not isinstance(val, np.ndarray) or val.dtype != np.int8 or val.shape != (len(pos), 16)
                       or val.tolist() != [bits[t] for t in pos]):
                     r.bad.append(("meta-less reader: %s(%s) is not the decoded last trace of the selected samples "
@@ -987,11 +986,9 @@ def exec_sync_sel(case):
                               dict(tags, defect="rows")))
             elif s_.tolist() != exp[name]:
                 k = next(i for i in range(len(pos)) if s_[i].tolist() != exp[name][i])
-                pooled = (sel[0] == "int" and len(acols) >= 2 and (use_floor or name == "rd")
-                          and s_[k, :16].tolist() == exp[name][k][:16])
                 r.bad.append(("%s row %d is not sample %d of the recording decoded (as %s does)" % (
                     what, k, pos[k], "read_sync([i])" if sel[0] == "int" else "NumPy indexing of the full array"),
-                    dict(tags, defect="int_selector_pooled_floor" if pooled else "rows")))
+                    dict(tags, defect="rows")))
         r.nontrivial = bool(pos)
         return r
     finally:
